@@ -1424,6 +1424,45 @@ theorem splitted_copy_spec (x : NetA) (σ : AbsA) (h : ReprsA x σ) (node : Int)
     rw [rel_graphEdges d (N + 1) _ hs i j hi hj]
     exact splitRel_congr hadj' hkN i j
 
+/-- the same **without `hlink`**, for everything but the attributes: whatever the dictionary of
+the original holds (also on an edgeless network), the call succeeds and — attributes set aside —
+the returned object represents the split relation and weights -/
+theorem splitted_copy_core (x : NetA) (σ : AbsA) (h : ReprsA x σ) (node : Int) (k : Nat)
+    (hk : splitNode x.core.N node = some k) (p : Rat) :
+    ∃ x', splittedCopyA x node p = .ok x'
+      ∧ ReprsA ⟨x'.core, []⟩ { splitAbs x.core.N k p σ with V := fun _ => none }
+      ∧ x'.core.N = x.core.N + 1 := by
+  obtain ⟨core, as⟩ := x
+  obtain ⟨hc, hna, hdir, hadj, hw, hgvw, hattr⟩ := h
+  have hc' : Coherent core := hc
+  obtain ⟨d, N, g, ea, vw, w, rfl, hg⟩ := hc'.exists_form
+  have hea : ea = none := hna
+  subst hea
+  have hdir' : d = σ.d := hdir
+  have hadj' : ∀ i j, i < N → j < N → rel d g i j = σ.a i j := hadj
+  have hw' : w = σ.w := hw
+  have hk' : splitNode N node = some k := hk
+  have hkN : k < N := (splitNode_some hk').1
+  have hs := splitRel_simple d (rel d g) N k (simple_rel d N g hg.noloop) hkN
+  have hwl : (splitW w k p).length = N + 1 := by rw [splitW_length, hg.wlen]
+  have hgood0 : Good d (N + 1) (graphEdges d (N + 1) (cells (N + 1) (splitRel (rel d g) N k)))
+      none none (splitW w k p) :=
+    good_graphEdges d (N + 1) (by omega) _ _ hwl none (fun _ h => by cases h)
+  refine ⟨as.foldl (splitStep ⟨form d N g none vw w, as⟩ k) (NetA.fresh (form d (N + 1)
+    (graphEdges d (N + 1) (cells (N + 1) (splitRel (rel d g) N k))) none none (splitW w k p))),
+    ?_, ?_, ?_⟩
+  · show splittedCopyA ⟨form d N g none vw w, as⟩ node p = _
+    unfold splittedCopyA
+    have e0 : (form d N g none vw w).N = N := rfl
+    simp only [e0, hk', splitInit_form hg k hkN p]
+    rfl
+  · rw [splitLoop_core]
+    refine reprsA_form hgood0 hdir' ?_ (by rw [hw']; rfl) rfl (fun a => attrOK_none_nil _ _ a)
+    intro i j hi hj
+    rw [rel_graphEdges d (N + 1) _ hs i j hi hj]
+    exact splitRel_congr hadj' hkN i j
+  · rw [splitLoop_core]; rfl
+
 /-- what `splitRel` says, cell by cell: among the old nodes nothing changes; the new node `N`
 has the in- and out-neighbours of `k`, and `k` itself (both directions); no self-loop -/
 theorem splitted_copy_relation (a : Nat → Nat → Bool) (N k : Nat) (hk : k < N) :
